@@ -5,12 +5,15 @@ C14 - any input string is parsed or rejected with the library's parsing error.
 from __future__ import annotations
 
 import ast
+import json
+import os
 import re
 import signal
+import sys
 
 from hypothesis import strategies as st
 
-from ..core import Campaign, Outcome, lib_frame
+from ..core import Campaign, HarnessError, Outcome, lib_frame, safe_check
 from ..gen import formula as G
 from .. import libio
 
@@ -401,3 +404,87 @@ def campaigns(tier, shard=0, nshards=1):
         Campaign("tokenless-factors", gen_tokenless(), check_string, n[6]),
         Campaign("long-inputs", gen_long(), check_string, n[7]),
     ]
+
+
+# ---------------------------------------------------------------- coverage-guided phase (atheris / libFuzzer)
+
+FUZZ_SEEDS = [
+    "y ~ a + b", "a:b + c*d", "[a ~ b] + c", "y ~ x | z", "`a b` + {c+1} + f(d, 'e')", "a %in% b", "(a + b)**2 - a:b", "y ~ -1 + .", "a ~ [b ~ c | d]",
+    "f(a)(b) + g(`x`, [1, 2])", "1 + 0 - 1", "a ^ 2 + 2.5:b", "~ a", "a | b | c", "{'}'} + \"q\" + 'r'", "a /(b + c) : d",
+]
+
+
+def extra_phase(tier, seed, stats):
+    """Thorough tier: N parallel atheris campaigns (half from an empty corpus, half from a few valid formulas) with
+    check_string as the in-target oracle. The quick tier runs one short campaign as a smoke test of the wiring."""
+    import glob
+    import shutil
+    import subprocess
+    import tempfile
+    import time as _t
+
+    from ..core import VERIF_DIR, Outcome as _O
+
+    try:
+        env = dict(os.environ)
+        subprocess.run([sys.executable, "-c", "import atheris"], check=True, env=env, capture_output=True, timeout=60)
+    except Exception:
+        return {"fuzz": "skipped: atheris not importable (setup.sh could not install it)"}
+    workers, secs = (2, 12) if tier == "quick" else (16, 420)
+    root = tempfile.mkdtemp(prefix="c14fuzz-", dir=os.path.join(VERIF_DIR, "replay"))
+    procs = []
+    for w in range(workers):
+        od = os.path.join(root, f"w{w}")
+        corpus = os.path.join(od, "corpus")
+        os.makedirs(corpus)
+        if w % 2 == 1:
+            for i, f_ in enumerate(FUZZ_SEEDS):
+                with open(os.path.join(corpus, f"seed{i}"), "wb") as fh:
+                    fh.write(bytes([2 * (i % 2), 7 - (i % 8) if i % 3 else 7]) + f_.encode())
+        cmd = [sys.executable, "-m", "vf.fuzz_c14", od, f"-seed={seed * 100 + w + 1}", f"-max_total_time={secs}", "-max_len=64", "-timeout=120", "-print_final_stats=1", corpus]
+        procs.append((od, subprocess.Popen(cmd, cwd=VERIF_DIR, stdout=subprocess.DEVNULL, stderr=subprocess.PIPE, text=True)))
+    t0 = _t.time()
+    total = {"execs": 0, "decoded": 0, "accepted": 0, "rejected": 0, "violations": 0}
+    cov = []
+    crashed = []
+    for od, pr in procs:
+        try:
+            _, err = pr.communicate(timeout=secs + 300)
+        except subprocess.TimeoutExpired:
+            pr.kill()
+            _, err = pr.communicate()
+        m = re.findall(r"cov: (\d+) ft: (\d+)", err or "")
+        if m:
+            cov.append(int(m[-1][0]))
+        if pr.returncode not in (0, None) and "Done" not in (err or ""):
+            crashed.append((os.path.basename(od), pr.returncode, (err or "")[-300:]))
+        try:
+            c = json.load(open(os.path.join(od, "counts.json")))
+            for k in total:
+                total[k] += c.get(k, 0)
+        except Exception:
+            pass
+        vf_ = os.path.join(od, "violations.jsonl")
+        if os.path.exists(vf_):
+            for line in open(vf_):
+                d = json.loads(line)
+                # re-evaluate in this process: the bucket, message and replay file come from the ordinary machinery
+                o = safe_check(check_string, d["case"])
+                if o.violations:
+                    stats.record("extra:fuzz", d["case"], o)
+    # the executions of the children are not re-run here; account for them as evaluations of the extra phase
+    stats.evaluations += total["decoded"]
+    pc = stats.per_campaign.setdefault("extra:fuzz", {"evaluations": 0, "nontrivial": 0, "rejected": 0})
+    pc["evaluations"] += total["decoded"]
+    pc["rejected"] += total["rejected"]
+    stats.rejected += total["rejected"]
+    shutil.rmtree(root, ignore_errors=True)
+    info = {"fuzz": {"engine": "atheris (libFuzzer)", "workers": workers, "seconds_each": secs, "executions": total["execs"], "decoded_inputs": total["decoded"],
+                     "accepted": total["accepted"], "rejected": total["rejected"], "violating_executions": total["violations"], "edge_coverage_per_worker": cov,
+                     "corpora": "even workers start empty, odd workers from %d valid formulas" % len(FUZZ_SEEDS), "worker_failures": crashed[:3]}}
+    if crashed and not total["execs"]:
+        raise HarnessError(f"fuzz workers failed: {crashed[:2]}")
+    return info
+
+
+EXTRA_REPLAY = {"extra:fuzz": check_string}
